@@ -16,7 +16,7 @@ func init() {
 	register(&Property{
 		ID:          "C14",
 		Run:         runC14,
-		Explanation: "Decides the structural clauses of all-or-nothing management operations: (R1) every orchestrator method that opens a store transaction registers the discard right after it, registers an in-memory inverse after every successful service mutation before the next fallible step, skips the rollback only on the commit's success edge, and runs it by defer; the inverse of an Update re-applies values captured BEFORE the mutation (it never reads the live instance at rollback time); (R2) every mutating service call from the orchestrator is dominated by the provisioned-by-API edge and the not-running edge; (R4) the services publish a created instance in their maps only after the store write succeeded and remove it only after the store delete succeeded; (R6) the pipeline name index follows renames (the old name — read before the config is replaced — is freed, the new one reserved).",
+		Explanation: "Decides the structural clauses of all-or-nothing management operations: (R1) every orchestrator method that opens a store transaction registers the discard right after it, registers an in-memory inverse after every successful service mutation before the next fallible step, skips the rollback only on the commit's success edge, and runs it by defer; the inverse of an Update re-applies values captured BEFORE the mutation (it never reads the live instance at rollback time); (R2) every mutating service call from the orchestrator is dominated by the provisioned-by-API edge and the not-running edge; (R4) the services publish a created instance in their maps only after the store write succeeded and remove it only after the store delete succeeded; (R6) the pipeline name index follows renames (the old name — read before the config is replaced — is freed, the new one reserved). Rules added later (after independent seeded changes and defect hunts) are not all enumerated here: every armed rule is listed with its description, kind and instance count under coverage.rules.",
 		NotDecided:  []string{"equality of memory and store after arbitrary histories", "reference symmetry beyond the paired Add/Remove inverses"},
 		Assumptions: []string{"rollback.R executes appended functions in reverse order unless Skip was called", "the store transaction discards writes that were not committed"},
 	})
